@@ -1,5 +1,6 @@
 #!/usr/bin/env bash
 # tools/confirm_seed.sh <seed-id> <dir-with-patch.diff+seeded_demo.rs+meta.txt> <property>
+# (SEED_FEATURES=indexmap,... adds cargo features to the demonstration runs)
 # Confirms a seeded change in a scratch worktree (never in /repo): the demonstration passes on the
 # original tree, the existing suite passes with the change, the demonstration fails with the change.
 set -u
@@ -11,11 +12,11 @@ cp /repo/Cargo.lock "$WT/"
 cp "$SRC/seeded_demo.rs" "$WT/tests/seeded_demo.rs"
 cd "$WT"
 export CARGO_NET_OFFLINE=true
-timeout 900 cargo test --offline --test seeded_demo >"$WT/demo_orig.log" 2>&1; d0=$?
+timeout 900 cargo test --offline ${SEED_FEATURES:+--features $SEED_FEATURES} --test seeded_demo >"$WT/demo_orig.log" 2>&1; d0=$?
 git apply "$SRC/patch.diff" || { echo "patch does not apply"; exit 2; }
 timeout 900 cargo test --offline --test tests >"$WT/suite.log" 2>&1; s1=$?
 timeout 900 cargo test --offline --doc >>"$WT/suite.log" 2>&1; s2=$?
-timeout 900 cargo test --offline --test seeded_demo >"$WT/demo_patched.log" 2>&1; d1=$?
+timeout 900 cargo test --offline ${SEED_FEATURES:+--features $SEED_FEATURES} --test seeded_demo >"$WT/demo_patched.log" 2>&1; d1=$?
 echo "demo on original: rc=$d0 (want 0); existing suite with change: rc=$s1/$s2 (want 0/0); demo with change: rc=$d1 (want != 0)"
 ok=0; [ $d0 -eq 0 ] && [ $s1 -eq 0 ] && [ $s2 -eq 0 ] && [ $d1 -ne 0 ] && ok=1
 if [ $ok -eq 1 ]; then
